@@ -22,9 +22,11 @@ import (
 func init() {
 	selfTests("C04", sm4m.SelfTest, aead.SelfTest)
 	register(&Prop{
-		ID:        "C04",
-		Level:     "exploration",
-		Nodes:     func(tier string) []string { return []string{"avx2", "avx", "sse", "noclmul", "noclmul-avx", "noaes", "purego"} },
+		ID:    "C04",
+		Level: "exploration",
+		Nodes: func(tier string) []string {
+			return []string{"avx2", "avx", "sse", "noclmul", "noclmul-avx", "noaes", "purego"}
+		},
 		Cross:     true,
 		Gen:       genC04,
 		Exec:      execC04,
